@@ -928,6 +928,15 @@ class Lvalue(Expr):
 
     @property
     def type(self):
+        if self.is_const:
+            # the name of a CONST has the type of the constant's
+            # value (CONST n = "x" is a string), not the type the
+            # spelling of the name would give a variable
+            const = self.parent_routine.local_consts.get(self.base_var)
+            if const is None:
+                const = self.context.global_consts[self.base_var]
+            return const.type
+
         var_type = self.base_type
 
         if var_type.is_array and self.array_indices:
